@@ -472,6 +472,17 @@ func vpPlaceRoutes(t *rapid.T, s *vpSim, maxExits int, originMetricMax int) stri
 			desc = append(desc, fmt.Sprintf("node%d:forward:%s/m%d", i, key, metric))
 		}
 	}
+	// now and then one node originates more routes than fit one advertisement (the one-byte
+	// route count and the frame size force several advertisements per announcement)
+	if rapid.IntRange(0, 7).Draw(t, "bulk") == 0 {
+		i := rapid.IntRange(0, n-1).Draw(t, "bulkNode")
+		cnt := rapid.IntRange(256, 320).Draw(t, "bulkRoutes")
+		for k := 0; k < cnt; k++ {
+			_, nw, _ := net.ParseCIDR(fmt.Sprintf("172.%d.%d.0/24", 16+k/256, k%256))
+			s.nodes[i].mgr.AddLocalRoute(nw, 0)
+		}
+		desc = append(desc, fmt.Sprintf("node%d:bulk:%d-cidr-routes", i, cnt))
+	}
 	return strings.Join(desc, ",")
 }
 
